@@ -9,7 +9,8 @@ def build(case):
 	from gambit.db.models import Taxon, AnnotatedGenome, Genome
 	taxa = []
 	for i, t in enumerate(case['taxa']):
-		taxa.append(Taxon(id=i + 1, key=f't{i}', name=f'taxon{i}', distance_threshold=t.get('thr'), report=bool(t.get('report', True))))
+		# primary keys as every GAMBIT database file has them (genome set 1, taxa 1..n): many databases are seen by one process
+		taxa.append(Taxon(id=i + 1, genome_set_id=1, key=f't{i}', name=f'taxon{i}', distance_threshold=t.get('thr'), report=bool(t.get('report', True))))
 	for i, t in enumerate(case['taxa']):
 		if t.get('parent') is not None:
 			taxa[i].parent = taxa[t['parent']]
